@@ -27,6 +27,9 @@ CHECKS = {
  'C03': dict(text="Machine-checked Lean 4 proofs about the executable kernel definitions (arrays with in-place accumulation, as the driver runs them), for any commutative coefficient ring and any COO entry list in any order with duplicates: the dense kernel and the runtime-sparse (zero-skipping) kernel both equal the table contraction, the grade-filtered table contracts the operands projected onto the requested grades, get_mult_function's branch choice preserves this, a scalar operand acts as the grade-0 multivector, and dtype kinds promote by max. Tied to /repo by running every generated kernel (4 tables x default/grade-filtered, left/right matrices) and every operator x operand-class pair of the real library on dense/sparse/single/zero patterns in int/float/complex dtypes against an exact contraction of the published table and against the executable model, both JIT configurations.",
              technique="Lean 4 proof (fold lemma over the COO list, on the executable array kernels) + kernel/operator correspondence with the executable model",
              design="§6 C03"),
+ 'C05': dict(text="Machine-checked Lean 4 proofs in the model algebra over any commutative ring, any n and signature: X*M=1 iff M*X=1 (Dedekind-finiteness of matrices), hence inverses are unique and all methods that return an inverse agree; normalInv is the two-sided inverse when ~M*M is an invertible scalar; a zero divisor (in particular every multiple of 1+e with e*e=1) has no inverse; the __pow__ loop is the k-fold product and (M^-1)^k inverts M^k. PARTIAL: for the closed-form (n<=5) and Shirokov methods only the final step (numerator/denominator is the inverse if M*numerator is that scalar) is a theorem; the executable models of both algorithms are compared with an exact Gauss-Jordan inverse (certified by the model product) on every input. Tied to /repo by running inv/normalInv/hitzer_inverse/shirokov_inverse/leftLaInv, /, s/M and ** of the real library on versors, blades, dense, near-scalar and scaled inputs for all signature classes against the exact rational inverse (both sides, conditioning-scaled tolerance), and the singular families for the ValueError contract; both JIT configurations.",
+             technique="Lean 4 proof (left-inverse = right-inverse via matrix embedding; partial for closed forms) + exact-rational oracle correspondence",
+             design="§6 C05"),
 }
 
 def main():
